@@ -14,12 +14,15 @@
     environment ([dstep]).  Before the fix the statement was FALSE: [c09_old_refuted]
     and [c09_ticknow_old_refuted] keep the witness for the guard as it was
     ([GuardOld]: drop whenever nextTickTime >= now).
-    Not a theorem: that every run of the executable whole-simulation model of Model.v
-    projects onto [cstep] / [dstep] runs (the three share the tick / port / scheduler
-    definitions; the executable model is tied to the real code by exact trace equality
-    and scanned at quiescence on every run). *)
+    Projection of the executable whole-simulation model of Model.v onto [cstep]:
+    proved ([c09_world_projects_partial], C09/Project.v) for worlds with ONE connection
+    into which every port is plugged, any components and scripts, under the engine
+    contract checked on the run.  Not proved: several connections (the index mapping
+    between global ports and a connection's local port list), the engine contract as an
+    invariant of the world model, and the projection onto [dstep] (clause 2); those
+    remain covered by the exact trace tie and the quiescent-state scan on every run. *)
 From Akita Require Import Lib.Base Lib.Fifo Lib.Port Lib.Conn C10.Model C10.Exec C10.Proofs
-     C09.Model C09.Proofs.
+     C09.Model C09.Proofs C09.Project.
 Local Open Scope N_scope.
 
 (** Regression (guard before the fix): a concrete topology (two connections bridged by an
@@ -119,6 +122,47 @@ Proof.
   unfold in_len. rewrite E. discriminate.
 Qed.
 Print Assumptions c09_draining_component_clean.
+
+(** Projection (partial: one-connection worlds).  For every world built the way the
+    harness builds it — any ports (capacities, owners) all plugged into one direct
+    connection of period >= 1, any scripted ticking / event-driven components — every run
+    of the executable model that respects the engine contract ([run_ok]: component events
+    are primary and the connection's secondary; nothing is dispatched before the current
+    time or while an earlier tick of the connection is pending — what C01 proves of the
+    engine) IS a run of the abstract connection system ([csteps], related by [R]); hence
+    the invariant [cinv] holds of it, and if it ends un-halted with no tick event of the
+    connection queued, no port holds a deliverable message.
+    Missing for the full statement: worlds with several connections; [run_ok] as a proved
+    invariant instead of a checked hypothesis; the same for draining components ([dstep]). *)
+Theorem c09_world_projects_partial : forall ports comps period fuel tr,
+  1 <= period -> Forall (fun p : Z * Z * nat * nat => snd p = 0%nat) ports ->
+  let w0 := kick (build GuardNew ports comps [period]) in
+  run_ok fuel w0 = true ->
+  let wf := snd (fst (run fuel w0 tr)) in
+  w_halt wf = false -> w_sec wf = [] ->
+  (exists acts st', csteps GuardNew (st_init (w_ports w0) period) acts = Some st' /\ R wf st' /\ cinv st') /\
+  forall k, deliv (w_ports wf) k = false.
+Proof.
+  intros ports comps period fuel tr Hp Hall w0 Hok wf Hnh Hq.
+  destruct (built_world ports comps period Hp Hall) as (Hw & Hr & Hi). fold w0 in Hw, Hr, Hi.
+  exact (world_projects fuel w0 _ tr Hw Hr Hi Hok Hnh Hq).
+Qed.
+Print Assumptions c09_world_projects_partial.
+
+(** non-vacuity: a ticking sender, an event-driven relay and a ticking receiver on one
+    connection; the run respects the contract and ends un-halted with empty queues *)
+Example c09_world_projects_nonvacuous :
+  let ports := [(2%Z, 2%Z, 0%nat, 0%nat); (2%Z, 2%Z, 1%nat, 0%nat); (1%Z, 2%Z, 1%nat, 0%nat); (2%Z, 1%Z, 2%nat, 0%nat)] in
+  let comps := [mk_compd KTick 1000 [Some 1%nat] [None]
+                  [(1000, 0%nat, mk_msg 1 1 2 10); (1000, 0%nat, mk_msg 2 1 2 20); (2500, 0%nat, mk_msg 3 1 4 30)];
+                mk_compd KEvent 1000 [None; None] [Some (2%nat, 4); None] [];
+                mk_compd KTick 1000 [Some 1%nat] [None] []] in
+  let w0 := kick (build GuardNew ports comps [1000]) in
+  run_ok 200 w0 = true /\
+  let '(tr, wf, done) := run 200 w0 [] in
+  done = true /\ w_halt wf = false /\ w_prim wf = [] /\ w_sec wf = [] /\ (10 <= length tr)%nat /\
+  Forall (fun p : Z * Z * nat * nat => snd p = 0%nat) ports.
+Proof. vm_compute. repeat split; try reflexivity; try lia. repeat constructor. Qed.
 
 (** Non-vacuity: the hypotheses are met by a real run of the abstract system — a send,
     the tick that delivers it, a retrieval; and the scheduler invariant holds initially. *)
